@@ -448,6 +448,9 @@ func buildTransfer(w *gWorld, mut func(*common.Transaction)) (*common.SignedTran
 		return nil, ""
 	}
 	tx := common.NewTransactionV5(ins[0].u.Asset)
+	if w.r.Chance(1, 14) { // the same output spent twice, outputs worth twice its amount
+		ins = append(ins, ins[w.r.Intn(len(ins))])
+	}
 	for _, g := range ins {
 		tx.AddInput(g.u.Hash, g.u.Index)
 	}
@@ -486,7 +489,35 @@ func buildMint(w *gWorld, mut func(*common.Transaction)) (*common.SignedTransact
 	mut(tx)
 	signed := &common.SignedTransaction{Transaction: *tx}
 	_ = signed.SignRaw(w.acct().PrivateSpendKey)
+	if w.r.Chance(1, 5) {
+		w.mixOrdinaryInput(signed)
+	}
 	return signed, "mint"
+}
+
+// a mint / deposit transaction with one more, ordinary, input before or after the special one and
+// one (unverified) signature map per input: the early return of validateInputs skips the batch
+// verification, only the one-input rule of the type validator rejects it
+func (w *gWorld) mixOrdinaryInput(signed *common.SignedTransaction) {
+	ins := w.pickInputs(&signed.Asset, 1)
+	if ins == nil || len(signed.Inputs) != 1 || len(signed.SignaturesMap) != 1 {
+		return
+	}
+	g := ins[0]
+	m := map[uint16]*crypto.Signature{}
+	for i := 0; i < int(g.u.Script[2]) && i < len(g.u.Keys); i++ {
+		var sg crypto.Signature
+		copy(sg[:], w.r.Bytes(64))
+		m[uint16(i)] = &sg
+	}
+	in := &common.Input{Hash: g.u.Hash, Index: g.u.Index}
+	if w.r.Bool() {
+		signed.Inputs = append([]*common.Input{in}, signed.Inputs...)
+		signed.SignaturesMap = append([]map[uint16]*crypto.Signature{m}, signed.SignaturesMap...)
+	} else {
+		signed.Inputs = append(signed.Inputs, in)
+		signed.SignaturesMap = append(signed.SignaturesMap, m)
+	}
 }
 
 func buildDeposit(w *gWorld, mut func(*common.Transaction)) (*common.SignedTransaction, string) {
@@ -515,6 +546,9 @@ func buildDeposit(w *gWorld, mut func(*common.Transaction)) (*common.SignedTrans
 		key = w.custodian.PrivateSpendKey
 	}
 	_ = signed.SignRaw(key)
+	if w.r.Chance(1, 8) {
+		w.mixOrdinaryInput(signed)
+	}
 	if w.r.Chance(1, 10) {
 		h := signed.AsVersioned().PayloadHash()
 		if w.r.Bool() {
@@ -568,6 +602,18 @@ func buildWithdrawalClaim(w *gWorld, mut func(*common.Transaction)) (*common.Sig
 	}
 	sig := key.Sign(crypto.Blake3Hash(body))
 	tx.Extra = append(sig[:], body...)
+	switch w.r.Intn(24) {
+	case 0:
+		tx.Extra = tx.Extra[:Pick(w.r, []int{0, 1, 32, 63, 64})]
+	case 1:
+		tx.References = nil
+	case 2:
+		tx.References = append(tx.References, w.submits[0])
+	case 3:
+		if len(tx.Outputs) > 1 {
+			tx.Outputs[0], tx.Outputs[1] = tx.Outputs[1], tx.Outputs[0]
+		}
+	}
 	mut(tx)
 	return w.sign(tx, insFor(w, tx, ins), w.sigModeFor(ins)), "withdrawal-claim"
 }
@@ -584,6 +630,14 @@ func buildNodePledge(w *gWorld, mut func(*common.Transaction)) (*common.SignedTr
 		signer = w.accepted[0].signer
 	}
 	tx := w.buildPledge(ins[0], signer, payee)
+	switch w.r.Intn(16) {
+	case 0:
+		tx.Extra = tx.Extra[:63]
+	case 1:
+		tx.Extra = append(tx.Extra, 0)
+	case 2:
+		copy(tx.Extra, w.r.Bytes(32))
+	}
 	mut(tx)
 	return w.sign(tx, insFor(w, tx, ins), w.sigModeFor(ins)), "node-pledge"
 }
@@ -597,6 +651,9 @@ func buildNodeAccept(w *gWorld, mut func(*common.Transaction)) (*common.SignedTr
 	tx.AddInput(p.utxo.u.Hash, p.utxo.u.Index)
 	tx.AddOutputWithType(common.OutputTypeNodeAccept, nil, common.Script{}, p.utxo.u.Amount, w.seed())
 	tx.Extra = p.tx.Extra
+	if w.r.Chance(1, 12) {
+		tx.Extra = append([]byte{}, p.tx.Extra[:63]...)
+	}
 	mut(tx)
 	signed := &common.SignedTransaction{Transaction: *tx}
 	key := p.signer.PrivateSpendKey
@@ -648,6 +705,9 @@ func buildNodeRemove(w *gWorld, mut func(*common.Transaction)) (*common.SignedTr
 	tx.AddInput(a.utxo.u.Hash, a.utxo.u.Index)
 	tx.AddOutputWithType(common.OutputTypeNodeRemove, []*common.Address{a.payee}, common.NewThresholdScript(1), a.utxo.u.Amount, w.seed())
 	tx.Extra = a.tx.Extra
+	if w.r.Chance(1, 12) {
+		tx.Extra = append(append([]byte{}, a.tx.Extra...), 1)
+	}
 	mut(tx)
 	signed := &common.SignedTransaction{Transaction: *tx}
 	if w.r.Chance(1, 3) {
